@@ -181,6 +181,9 @@ def run_cases_sharded(exe, case_texts, shards=16, timeout=120, single_timeout=20
         try:
             p = subprocess.run([exe], input="".join(chunk), stdout=subprocess.PIPE, stderr=subprocess.PIPE,
                                text=True, errors="replace", timeout=to)
+            if p.returncode < 0 and len(chunk) > 1:
+                # killed by a signal (out of memory, crash): the rest of the shard would be lost silently
+                return None, chunk
             return p.stdout, []
         except subprocess.TimeoutExpired:
             return None, chunk
